@@ -67,6 +67,15 @@ fn build_section(s: &Section, seed: u8, block_version: u32) -> AuxPow {
             let ins: Vec<TxIn> = (0..300u32).map(|k| { let mut i = TxIn::spend([0x79; 32], k); i.witness = vec![vec![k as u8; (k % 5) as usize]; (k % 4) as usize]; i }).collect();
             Tx { version: 2, segwit: true, inputs: ins, outputs: vec![TxOut { value: 25, script: script::witness(1, &[seed; 32]) }], locktime: 0, wide: 0 }
         }
+        // what parent-chain pools write into their coinbase: height push, a pool tag in UTF-8 (multi-byte characters at every
+        // offset: the number of ASCII characters in front of them is carried in `chain_branch`), the merged-mining marker, a root
+        13 => {
+            let mut sig = vec![0x03, 0x5d, 0xf4, 0x1f];
+            sig.extend_from_slice(format!("/{}七彩神仙鱼 F2Pool Mined by käse-ñandú €uro 🐟/", "x".repeat(s.chain_branch)).as_bytes());
+            sig.extend_from_slice(&[0xfa, 0xbe, b'm', b'm']);
+            sig.extend_from_slice(&[0x42; 32]);
+            Tx { version: 1, segwit: false, inputs: vec![TxIn::coinbase(sig)], outputs: vec![TxOut { value: 25, script: script::p2pkh(&script::h20(seed)) }], locktime: 0, wide: 0 }
+        }
         // witness item length sweep: the length of the parent coinbase's (second) witness item is carried in `chain_branch`
         12 => {
             let mut i = TxIn::coinbase(vec![3, 9, 9, 9]);
@@ -85,7 +94,7 @@ fn build_section(s: &Section, seed: u8, block_version: u32) -> AuxPow {
         parent_hash: hash_n(seed, 999),
         coinbase_branch: (0..s.cb_branch).map(|i| hash_n(seed, i)).collect(),
         coinbase_mask: s.mask,
-        chain_branch: (0..if s.parent_cb == 5 || s.parent_cb == 12 { 0 } else { s.chain_branch }).map(|i| hash_n(seed.wrapping_add(40), i)).collect(),
+        chain_branch: (0..if s.parent_cb == 5 || s.parent_cb == 12 || s.parent_cb == 13 { 0 } else { s.chain_branch }).map(|i| hash_n(seed.wrapping_add(40), i)).collect(),
         chain_mask: s.mask.rotate_left(3),
         branch_wide: (s.wide & 0xff) as u8, parent_header: Header { version: match s.parent_version { 0 => 0x20000000, 1 => block_version, _ => 1 }, prev: hash_n(seed, 500), merkle: hash_n(seed, 501), time: 1_500_000_000, bits: 0x1b00ffff, nonce: 0xdeadbeef },
     }
@@ -166,6 +175,10 @@ pub fn run() -> Report {
             for (cb, ch) in [(0usize, 0usize), (2, 1)] {
                 cases.push(Case { coin: cn, versions: vec![thr, thr + 1, thr - 1, thr], section: Section { parent_cb, cb_branch: cb, chain_branch: ch, mask: 1, parent_version: 0, wide: 0 }, label: "parent-transaction-shapes".into() });
             }
+        }
+        // pool tags with multi-byte characters starting at every offset 1..=40 of the text
+        for shift in 0..40usize {
+            cases.push(Case { coin: cn, versions: vec![thr, thr + 1], section: Section { parent_cb: 13, cb_branch: 1, chain_branch: shift, mask: 1, parent_version: 0, wide: 0 }, label: format!("parent-coinbase-pool-tag-utf8-shift-{}", shift) });
         }
         // segwit parent coinbase with a witness item of every length around the CompactSize widths and the powers of two a
         // chunked skip is likely to use
